@@ -18,7 +18,7 @@ MOD = {
 
 class Harness:
     def __init__(self, file, fn, props, tier="quick", cost=5, what="", bounds="", timeout=None,
-                 expect_fail=False, real_map_replay=False, quick=None, required=(), allowed_fail=None):
+                 expect_fail=False, real_map_replay=False, quick=None, required=(), allowed_fail=None, unwind_tag=None):
         self.file = file
         self.fn = fn
         self.name = MOD[file] + "::" + fn
@@ -33,6 +33,7 @@ class Harness:
         self.expect_fail = expect_fail
         self.real_map_replay = real_map_replay
         self.allowed_fail = allowed_fail  # regex: documented panics this harness is EXPECTED to hit (ignored as failures, must occur)
+        self.unwind_tag = unwind_tag     # property for which an unwinding-assertion failure IS the violation (termination queries)
         self.required = tuple(required)   # cover! messages that must be SATISFIED (besides 'end ... reached')
 
 H = []
@@ -277,6 +278,7 @@ for _n in (1, 2):
     add("sync_base_cache.rs", f"s_admit_lemma_n{_n}", {"C13", "C12", "C08"}, "quick", 25, "sync Inner::admit for ALL weights / candidate weights / sketch contents (decision only; read-only)",
         f"n={_n} admitted residents, u32 weights symbolic", required=("rejected on popularity", "rejected: no covering prefix", "admitted over all residents"))
 add("sync_base_cache.rs", "l_sync_round_plain", {"C10", "C03", "C09", "C12", "C01", "C06", "C08"}, "quick", 60, "one whole Inner::sync with a queued Hit and a queued insert that fits", "n=1 + 1 pending, unbounded, symbolic read timestamp", quick={"C10", "C03", "C09", "C12"})
+add("sync_base_cache.rs", "l_evict_lru_terminates_on_unevictable_node", {"C09", "C08"}, "quick", 60, "evict_lru_entries over capacity with only an invalidated (unevictable) node left: bounded by its batch size", "n=1 whose map entry is gone, batch size 2", unwind_tag="C09")
 add("sync_base_cache.rs", "s_eviction_counters_never_overflow", {"C10", "C08"}, "quick", 2, "EvictionCounters saturating arithmetic", "all u64 totals, u32 weights")
 add("sync_cache.rs", "invalidate_of_a_pending_insert_queues_its_removal", {"C07", "C11", "C10"}, "quick", 60, "Cache::invalidate of a key whose Upsert is still queued", "n=1 admitted + 1 pending; model queue 4", quick={"C07", "C11", "C10"})
 add("sync_builder.rs", "sync_policy_reports_exactly_the_knobs", {"C17"}, "quick", 100, "sync builder: every knob combination -> policy()", "all capacities, durations <= 1000 y")
